@@ -41,6 +41,16 @@ pub enum Call {
     DfsPfs(K, K),
     /// preorder / postorder (order().pre()/.post()) search_nodes and a dfs cycle search
     Orders(K),
+    /// is_root / is_leaf / find_inbound / sizeof / `for e in &n` / node comparison
+    Preds(K, K),
+    /// transposed searches and orderings (directed) / max-first and cycle searches (both)
+    Trans(K, K),
+    /// every kind of edge loop whose body queries the yielded edge's endpoints and the iterated node
+    LoopQ(K),
+    /// every traversal kind with a for_each / filter closure that queries the edge's endpoints
+    TravQ(K),
+    /// read-only views of a container holding all nodes: roots / leaves / orphans / scc / to_dot / JSON
+    Views,
 }
 
 impl Call {
@@ -60,6 +70,11 @@ impl Call {
             Call::Bfs(u, t) => format!("n{}.bfs().target(&{}).search()", u, t),
             Call::DfsPfs(u, t) => format!("n{}.dfs()/.pfs().target(&{}).search_path()", u, t),
             Call::Orders(u) => format!("n{}.preorder()/.postorder().search_nodes(); n{}.dfs().search_cycle()", u, u),
+            Call::Preds(u, v) => format!("n{}.is_root()/.is_leaf()/.find_inbound(&{})/.sizeof(); for e in &n{}; n{} < n{}", u, v, u, u, v),
+            Call::Trans(u, t) => format!("n{}.bfs()/.dfs()/.pfs().max() [.transpose()].target(&{}); transposed orderings; bfs/pfs cycle", u, t),
+            Call::LoopQ(u) => format!("for e in n{}.iter*() {{ queries on e.source(), e.target(), n{} }}", u, u),
+            Call::TravQ(u) => format!("n{}.<every traversal>().for_each/filter(|e| queries on e.source(), e.target())", u),
+            Call::Views => "g.roots()/.leaves()/.orphans()/.scc()/.to_dot()/to_json(g)".to_string(),
         }
     }
     fn nodes(&self) -> Vec<K> {
@@ -67,7 +82,9 @@ impl Call {
             Call::Mut(Op::Connect(u, v, _)) | Call::Mut(Op::TryConnect(u, v, _)) | Call::Mut(Op::Disconnect(u, v)) => vec![u, v],
             Call::Mut(Op::Isolate(u)) => vec![u],
             Call::Degree(u) | Call::InDegree(u) | Call::IsOrphan(u) | Call::Collect(u) | Call::CollectIn(u) | Call::Orders(u) => vec![u],
-            Call::IsConnected(u, v) | Call::Find(u, v) | Call::Bfs(u, v) | Call::DfsPfs(u, v) => vec![u, v],
+            Call::IsConnected(u, v) | Call::Find(u, v) | Call::Bfs(u, v) | Call::DfsPfs(u, v) | Call::Preds(u, v) | Call::Trans(u, v) => vec![u, v],
+            Call::LoopQ(u) | Call::TravQ(u) => vec![u],
+            Call::Views => vec![],
         }
     }
     /// Name with nodes renamed through `map` and edge values dropped.
@@ -87,6 +104,11 @@ impl Call {
             Call::Bfs(u, v) => format!("bfs({},{})", map(u), map(v)),
             Call::DfsPfs(u, v) => format!("dfs_pfs({},{})", map(u), map(v)),
             Call::Orders(u) => format!("orders({})", map(u)),
+            Call::Preds(u, v) => format!("preds({},{})", map(u), map(v)),
+            Call::Trans(u, v) => format!("trans({},{})", map(u), map(v)),
+            Call::LoopQ(u) => format!("loopq({})", map(u)),
+            Call::TravQ(u) => format!("travq({})", map(u)),
+            Call::Views => "views()".to_string(),
         }
     }
 }
@@ -214,6 +236,89 @@ fn do_call<F: Fl>(nodes: &[F::Node], c: &Call) -> CallRet {
             }
             let cfg = Cfg { kind: Kind::Dfs, transpose: false, target: None, meth: Meth::None, res: ResK::Cycle, alt: false, tt: false };
             let _ = F::search(n(u), &cfg, &mut |_| true);
+            CallRet::Returned
+        }
+        Call::Preds(u, v) => {
+            let _ = F::is_root(n(u));
+            let _ = F::is_leaf(n(u));
+            let _ = F::find_in(n(u), v);
+            let _ = F::sizeof(n(u));
+            let _ = F::edges_into_iter(n(u));
+            let _ = F::node_cmp(n(u), n(v));
+            CallRet::Returned
+        }
+        Call::Trans(u, t) => {
+            let tr = F::DIRECTED;
+            for (kind, res) in [(Kind::Bfs, ResK::Path), (Kind::Dfs, ResK::Search), (Kind::PfsMax, ResK::Path), (Kind::PfsMin, ResK::Search)] {
+                let cfg = Cfg { kind, transpose: tr, target: Some(t), meth: Meth::None, res, alt: false, tt: false };
+                let _ = F::search(n(u), &cfg, &mut |_| true);
+            }
+            for (kind, res) in [(Kind::Pre, ResK::Nodes), (Kind::Post, ResK::Edges)] {
+                let cfg = Cfg { kind, transpose: tr, target: None, meth: Meth::None, res, alt: false, tt: false };
+                let _ = F::search(n(u), &cfg, &mut |_| true);
+            }
+            for (kind, transpose) in [(Kind::Bfs, false), (Kind::PfsMax, tr)] {
+                let cfg = Cfg { kind, transpose, target: None, meth: Meth::None, res: ResK::Cycle, alt: false, tt: false };
+                let _ = F::search(n(u), &cfg, &mut |_| true);
+            }
+            CallRet::Returned
+        }
+        Call::LoopQ(u) => {
+            let me = n(u).clone();
+            for which in 0..=4u8 {
+                let _ = F::edge_loop(n(u), which, 64, &mut |e| {
+                    let (s, t, _) = F::edge_parts(e);
+                    let _ = F::deg_out(&s);
+                    let _ = F::deg_out(&t);
+                    let _ = F::deg_in(&t);
+                    let _ = F::is_connected(&t, F::key(&s));
+                    let _ = F::find_out(&me, F::key(&t));
+                    let _ = F::is_orphan(&me);
+                });
+            }
+            CallRet::Returned
+        }
+        Call::TravQ(u) => {
+            for kind in crate::flavor::ALL_KINDS {
+                for meth in [Meth::ForEach, Meth::Filter] {
+                    for transpose in [false, true] {
+                        if transpose && !F::DIRECTED {
+                            continue;
+                        }
+                        let res = if kind.is_order() { ResK::Nodes } else { ResK::Path };
+                        let cfg = Cfg { kind, transpose, target: None, meth, res, alt: false, tt: false };
+                        let mut budget = 256usize;
+                        let _ = F::search(n(u), &cfg, &mut |e| {
+                            if budget == 0 {
+                                panic!("traversal closure called more than 256 times: the traversal does not terminate");
+                            }
+                            budget -= 1;
+                            let (s, t, _) = F::edge_parts(e);
+                            let _ = F::deg_out(&s);
+                            let _ = F::deg_out(&t);
+                            let _ = F::is_connected(&s, F::key(&t));
+                            let _ = F::find_out(&t, F::key(&s));
+                            true
+                        });
+                    }
+                }
+            }
+            CallRet::Returned
+        }
+        Call::Views => {
+            // the container's iteration order decides the order of lock acquisitions
+            gdsl::verif::set_hash_seed(Some(7));
+            let mut g = F::g_new();
+            for nd in nodes {
+                F::g_insert(&mut g, nd.clone());
+            }
+            let _ = F::g_roots(&g);
+            let _ = F::g_leaves(&g);
+            let _ = F::g_orphans(&g);
+            let _ = F::g_scc(&g);
+            let _ = F::g_to_dot(&g);
+            let _ = F::g_to_json(&g);
+            let _ = F::g_to_cbor(&g);
             CallRet::Returned
         }
     }
@@ -798,6 +903,27 @@ pub fn queries(n: usize, directed: bool) -> Vec<Call> {
     v
 }
 
+/// Second query family: predicates, transposed / max-first / cycle searches,
+/// edge loops and traversals whose body / closure itself queries the nodes
+/// (so a guard kept across the callback meets a second acquisition), and the
+/// read-only container views.
+pub fn queries2(n: usize) -> Vec<Call> {
+    let mut v = Vec::new();
+    let n = n as K;
+    for u in 0..n {
+        v.push(Call::LoopQ(u));
+        v.push(Call::TravQ(u));
+        for w in 0..n {
+            if u != w {
+                v.push(Call::Preds(u, w));
+                v.push(Call::Trans(u, w));
+            }
+        }
+    }
+    v.push(Call::Views);
+    v
+}
+
 pub fn init_lists(n: usize, max_edges: usize) -> Vec<Vec<Arc3>> {
     let mut out: Vec<Vec<Arc3>> = vec![vec![]];
     let mut frontier: Vec<Vec<Arc3>> = vec![vec![]];
@@ -836,6 +962,7 @@ pub fn scenarios(p: &SParams, directed: bool) -> Vec<Scenario> {
     let m1 = mutators(p.n, 11);
     let m2 = mutators(p.n, 12);
     let q = queries(p.n, directed);
+    let q2 = queries2(p.n);
     for init in init_lists(p.n, p.init_edges) {
         match p.shape.as_str() {
             "2x1" => {
@@ -912,6 +1039,24 @@ pub fn scenarios(p: &SParams, directed: bool) -> Vec<Scenario> {
                     }
                 }
             }
+            "2x1b" => {
+                // every mutator against every call of the second query family
+                for a in &m0 {
+                    for b in &q2 {
+                        out.push(Scenario { n: p.n, init: init.clone(), addr_order: vec![], threads: vec![vec![*a], vec![*b]] });
+                    }
+                }
+            }
+            "q2m2" => {
+                // second query family against two consecutive mutations
+                for a in &q2 {
+                    for b1 in &m0 {
+                        for b2 in &m1 {
+                            out.push(Scenario { n: p.n, init: init.clone(), addr_order: vec![], threads: vec![vec![*a], vec![*b1, *b2]] });
+                        }
+                    }
+                }
+            }
             "q1m2" => {
                 // one query / traversal against two consecutive mutations
                 for a in &q {
@@ -933,7 +1078,7 @@ pub fn scenarios(p: &SParams, directed: bool) -> Vec<Scenario> {
             let mut s2 = sc.clone();
             s2.addr_order = pm.clone();
             // scenarios equal up to renaming of the nodes are generated once
-            if (p.shape == "12m" || p.shape == "q1m2") && !is_canonical(&s2) {
+            if (p.shape == "12m" || p.shape == "q1m2" || p.shape == "q2m2") && !is_canonical(&s2) {
                 continue;
             }
             all.push(s2);
@@ -959,6 +1104,11 @@ fn rename_call(c: &Call, m: &[K]) -> Call {
         Call::Bfs(u, v) => Call::Bfs(r(u), r(v)),
         Call::DfsPfs(u, v) => Call::DfsPfs(r(u), r(v)),
         Call::Orders(u) => Call::Orders(r(u)),
+        Call::Preds(u, v) => Call::Preds(r(u), r(v)),
+        Call::Trans(u, v) => Call::Trans(r(u), r(v)),
+        Call::LoopQ(u) => Call::LoopQ(r(u)),
+        Call::TravQ(u) => Call::TravQ(r(u)),
+        Call::Views => Call::Views,
     }
 }
 
